@@ -196,21 +196,11 @@ def r2_output_table(ctx):
              "`t!`, `t_string!`, `t_display!` must reach the same builder with the matching build function; literal keys go through "
              "wrappers that must hand the value back unchanged", floor=10)
     ast = ctx.ast
-    fn = ast.fn(TM, "build_fns", impl_self="OutputType")
-    if fn is None:
-        r.missing("OutputType::build_fns")
-    else:
-        m = find_first(fn.body, "Match")
-        got = {}
-        for a in m["arms"]:
-            qs = [flat(tok_text(q["tokens"])) for q in xquotes(a["body"])]
-            got[show_pat(a["pat"]).split("::")[-1]] = qs
-        want = {"View": ["builder", "build().into_view"], "String": ["display_builder", "build_string"], "Display": ["display_builder", "build_display"]}
-        for k, w in want.items():
-            if got.get(k) == w:
-                r.inst("OutputType::%s" % k, " + ".join(w))
-            else:
-                r.viol("R2:build_fns#" + k, "%s uses %s, expected %s" % (k, got.get(k), w), file=fn.file, line=fn.line)
+    from rules import tmacro, absint as _absint
+    try:
+        tmacro.check_selectors(ctx, r, "R2")
+    except _absint.Unknown as u:
+        r.viol("R2:t_macro_inner#undecided", "t_macro_inner cannot be interpreted on the current code (%s): not decided on this tree (fail closed)" % str(u)[:300], file=TM)
     f = "leptos_i18n/src/macro_helpers/mod.rs"
     # value-level summaries from MIR (py/mirsum.py): the same for `self.0` / `self.inner()`, method or path call syntax
     from rules.common import msum
@@ -234,13 +224,6 @@ def r2_output_table(ctx):
             r.inst("LitWrapperFut::" + name, "forwards to the inner wrapper's %s" % name)
         else:
             r.viol("R2:LitWrapperFut::" + name, "is %s" % texts, file=f)
-    fn = ast.fn(TM, "t_macro_inner")
-    if fn is not None:
-        t = flatp(show(fn.body))
-        if has(t, "letget_key=input_type.get_keycontext,keys;letbuilder_fn,build_fn=output_type.build_fns;"):
-            r.inst("t_macro_inner", "get_key and build functions come from the two selector tables only")
-        else:
-            r.viol("R2:t_macro_inner", "t! no longer derives its accessor chain from the selector tables", file=fn.file, line=fn.line)
     return r
 
 
